@@ -390,10 +390,25 @@ loop:
 		<-groupch
 	}
 	if clusterch != nil {
-		<-clusterch
+		// a reservation that completes after we stopped listening must still be released
+		if result := <-clusterch; !won && result.Error() == nil {
+			if r, ok := result.Value().(ctypes.Reservation); ok && r != nil {
+				if err := o.cluster.Unreserve(r.OrderID()); err != nil {
+					o.log.Error("error unreserving late reservation", "err", err)
+				}
+			}
+		}
 	}
 	if bidch != nil {
-		<-bidch
+		// a bid whose broadcast succeeds after we stopped listening must still be closed
+		if result := <-bidch; !won && result.Error() == nil {
+			err := o.session.Client().Tx().Broadcast(context.Background(), &mtypes.MsgCloseBid{
+				BidID: mtypes.MakeBidID(o.orderID, o.session.Provider().Address()),
+			})
+			if err != nil {
+				o.log.Error("closing late bid", "err", err)
+			}
+		}
 	}
 	if pricech != nil {
 		<-pricech
